@@ -170,7 +170,7 @@ func DebugRender(w io.Writer, tmpl *Template, ctx *RenderContext) error {
 			if v != nil {
 				typeName = fmt.Sprintf("%T", v)
 			}
-			LogVerbose("Context var: %s = %v (type: %s)", k, v, typeName)
+			LogVerbose("Context var: %s = %s (type: %s)", k, stableString(v), typeName)
 		}
 	}
 
